@@ -39,7 +39,7 @@ PROPS = {
                  ("resource", "claim", 1, 1), ("resource", "nest", 1, 1)],
         thorough_extra=[("resource", "nestdeep", 1, 1)],
         relevant=["C03:"],
-        theorems=['DV.Props.C03.C03_avp_nopanic', 'DV.Props.C03.C03_avps_nopanic', 'DV.Props.C03.C03_header_nopanic', 'DV.Props.C03.C03_message_nopanic', 'DV.Props.C03.C03_short_length_rejected', 'DV.Props.C03.C03_pretty_asserts', 'DV.Props.C03.C03_gen',
+        theorems=['DV.Props.C03.C03_avp_nopanic', 'DV.Props.C03.C03_avps_nopanic', 'DV.Props.C03.C03_header_nopanic', 'DV.Props.C03.C03_message_nopanic', 'DV.Props.C03.C03_short_length_rejected', 'DV.Props.C03.C03_pretty_asserts', 'DV.Props.C03.C03_serialize_fits', 'DV.Props.C03.C03_serialize_message_fits', 'DV.Props.C03.C03_gen',
                   'DV.Props.C03.C03_body_bound', 'DV.Props.C03.C03_claimed_length_counterexample', 'DV.Props.C03.C03_nesting_cost_counterexample', 'DV.Props.C03.C03_no_linear_bound'],
         gen_obligations=['Gen.HeaderLength', 'Gen.Vbit', 'Gen.available ⊆ Gen.decoderKeys', 'Gen.prettyAsserts', 'Gen.bodyChunkLength'],
         trusted=CODEC_TRUST,
